@@ -41,6 +41,8 @@ add("C18", "Hypothesis-generated call histories (model-based): every step on one
     "Histories of <=3 operations (shex_graph with format/sink/threshold, profile_graph, construction of another Shaper sharing the namespaces dict) are generated and shrunk as one value; after every step the observed text/file must equal what a fresh object returns for that single call; outputs above 5 000 and 10 000 lines exercise the buffer flush.", "DESIGN.md 2/C18")
 add("C17", "Hypothesis generators (IRI families with shared/unshared segments) + recomputation oracle for stems and examples + metamorphic relation",
     "Stems are recomputed as the longest common prefix of the instance IRIs cut back to the last separator; examples must be actual instances / values; the constraints must equal those of a run without the two options.", "DESIGN.md 2/C17")
+add("C08", "Hypothesis differential testing across delivery channels (format x source kind x compression x partition) against the raw N-Triples run",
+    "Each generated graph is delivered through 4 drawn channels built from real files (gz/xz/zip, several files, file:// URLs, rdflib Graph objects, seven syntaxes) and the canonical document of each must equal that of the reference channel; frequency ties fall back as in C09.", "DESIGN.md 2/C08")
 
 ALL = ["C%02d" % i for i in range(1, 21)]
 def main():
